@@ -73,7 +73,15 @@ def schedules(rnd, n, calls):
                 cases.append({"grammar": "ASSGN2", "g": g, "fam": "schedule", "text": text, "phi": phi, "settings": st, "calls": calls,
                               "seed": rnd.randrange(1000), "ticks": ticks})
     rnd.shuffle(cases)
-    return cases[:n]
+    cases = cases[:n]
+    # unsat support together with tree insertion (discouraged, but allowed): existential matches and insertions of one
+    # step produce solutions and probed states side by side
+    for k, (text, phi) in enumerate(base[:2] + base[-1:]):
+        for tim in (7, 3):
+            cases.append({"grammar": "ASSGN2", "g": g, "fam": "schedule", "text": text, "phi": phi,
+                          "settings": {"activate_unsat_support": True, "tree_insertion_methods": tim, "max_number_free_instantiations": 1 + 2 * (k % 2)},
+                          "calls": calls, "seed": rnd.randrange(1000), "ticks": []})
+    return cases
 
 
 def sweep(rnd, n, calls):
